@@ -66,6 +66,7 @@ def C12(ctx):
     RG.check_guards(ctx, u, GUARD_TABLE)
     RG.check_swap(ctx, u, ["frg::unique_lock", "frg::shared_lock"])
     RA.check_spinlocks(ctx, u)
+    RO.check_move_ctor_complete(ctx, u, ["frg::unique_lock", "frg::shared_lock"])
     RO.check_members_initialised(ctx, u, ["frg::ticket_spinlock", "frg::simple_spinlock", "frg::unique_lock", "frg::shared_lock", "frg::lock_guard"])
     return ("Structural part of C12 only: guard classes (unique_lock, shared_lock, qs lock_guard) are abstractly "
             "executed over their event CFGs with the ownership flag and the sequence of mutex calls as state. "
@@ -109,6 +110,7 @@ def C11(ctx):
     RQ.check_qs_full_fences(ctx, u)
     RW.check_widths(ctx, u, ["frg::qs_agent", "frg::qs_domain"])
     RO.check_members_initialised(ctx, u, ["frg::qs_agent", "frg::qs_domain", "frg::qs_node", "frg::_list::intrusive_list_hook"])
+    RO.check_move_ctor_complete(ctx, u, ["frg::qs_agent", "frg::qs_node"])
     return ("Structural clauses of C11: the domain mutex guard releases through unlock(); counter/ack-count/agent-count "
             "writes are under the domain mutex; run() unlinks and resets the node before the callback and never touches "
             "it afterwards; callback only under acquire-loaded counter >= target; both barrier functions use the same "
@@ -132,6 +134,7 @@ def _composition_by_reference(ctx):
 def C10(ctx):
     u = need_unit(ctx, "radix")
     RR.check_C10(ctx, u)
+    RR.check_insert_forwards(ctx, u)
     _storage_layout(ctx)
     RW.check_widths(ctx, u, ["frg::rcu_radixtree"])
     return ("Publication-order half of C10: release on every store a reader can see, acquire on every load in find(), fresh "
@@ -143,6 +146,8 @@ def C10(ctx):
 def C09(ctx):
     u = need_unit(ctx, "radix")
     RR.check_C09(ctx, u)
+    RR.check_depth_shifts(ctx, u)
+    RR.check_walk_slots(ctx, u)
     _storage_layout(ctx)
     RW.check_widths(ctx, u, ["frg::rcu_radixtree"])
     ctx.rule("K.stale-derived", "in the radix tree a value loaded through the cursor node (mask, index, child) is not used "
@@ -175,6 +180,7 @@ def C13(ctx):
     RO.check_raw_storage_moves(ctx, u, ["frg::small_vector"])
     RO.check_swap_targets(ctx, u, ["frg::small_vector"])
     RW.check_countdowns(ctx, u, ["frg::vector", "frg::small_vector", "frg::dyn_array"])
+    RO.check_assign_reads_source_first(ctx, u, ["frg::vector", "frg::small_vector"])
     RO.check_members_initialised(ctx, u, ["frg::vector", "frg::small_vector", "frg::dyn_array", "frg::_list::intrusive_list",
                                           "frg::_list::intrusive_list_hook", "frg::list"])
     _storage_layout(ctx)
@@ -227,6 +233,10 @@ def C16(ctx):
     RR.check_entry_reuse(ctx, ur)
     RST.check_free_after_copies(ctx, ust)         # nothing is read from a buffer after it went back to the allocator
     RH.check_trailing_pointer(ctx, uh)            # a node is unlinked before it is destroyed: no freed node stays reachable
+    RO.check_dtor_releases(ctx, uh, {"frg::hash_map": "_table"})
+    RO.check_dtor_releases(ctx, us, {"frg::vector": "_elements", "frg::dyn_array": "elements_"}, rule="O.dtor-releases")
+    RO.check_dtor_releases(ctx, ust, {"frg::basic_string": "_buffer"}, rule="O.dtor-releases")
+    RO.check_dtor_releases(ctx, uo, {"frg::unique_memory": "pointer_"}, rule="O.dtor-releases")
     _storage_layout(ctx)
     return ("Structural clauses of C16 over vector, small_vector, dyn_array, list, hash_map, basic_string, unique_ptr, "
             "unique_memory, optional, expected, variant, manual_box and the radix tree: every allocator block escapes to an "
@@ -245,6 +255,8 @@ def C14(ctx):
     RH.check_trailing_pointer(ctx, u)
     RH.check_next_after_relink(ctx, u)
     RH.check_end_sentinel(ctx, u)
+    RH.check_begin_total(ctx, u)
+    RH.check_key_before_move(ctx, u)
     RO.check_members_initialised(ctx, u, ["frg::hash_map", "frg::hash_map::chain", "frg::hash_map::iterator", "frg::hash_map::const_iterator"])
     RW.check_widths(ctx, u, ["frg::hash_map"])
     RO.check_init_reads(ctx, u, ["frg::hash_map"])
@@ -267,6 +279,7 @@ def C18(ctx):
         RBI.check_C18(ctx, u, nb)
     RBI.check_concat(ctx, u)
     RBI.check_minmax(ctx, u)
+    RBY.check_bytewise(ctx, u)
     return ("Structural clauses of C18: constant subscripts of array within bounds; bitset constructors initialise every "
             "word and mask; dirty word writes are followed by mask_last_bit(); shift operators bound the shift amount before "
             "any dependent access; all shift counts within the operand width; no unconditional self-recursion; bit-reference "
@@ -285,6 +298,7 @@ def C15(ctx):
     RO.check_empty(ctx, u, ["frg::basic_string"])
     RO.check_grow_then_read_arg(ctx, u, ["frg::basic_string"], elem_types=("char", "char16_t", "wchar_t", "char32_t"))
     RBY.check_bytewise(ctx, u)
+    RP.check_sized_text(ctx, u)        # (hash<basic_string>, conversions: a string's data() never travels without its size())
     if ctx.tier == "thorough":
         u2 = need_unit(ctx, "string", extra_flags=("-DFRG_VERIF_WIDE",), tag="wide")
         RST.check_string_buffers(ctx, u2, tag=" [char16_t]", only_chart="char16_t")
@@ -329,6 +343,7 @@ def C20(ctx):
     RP.check_group_size_current(ctx, uf)
     RBY.check_bytewise(ctx, uf)
     RBY.check_bytewise(ctx, us)
+    RBY.check_literal_width(ctx, uf)
     ctx.rule("R.self-recursion", "no parser or helper calls itself on every path", 0)
     RBI.check_self_recursion(ctx, uf, [f for f in uf.functions if f.uq.startswith("frg::")])
     RBI.check_self_recursion(ctx, us, [f for f in us.functions if f.uq.startswith("frg::")])
@@ -353,6 +368,9 @@ def C19(ctx):
     RP.check_directive_state(ctx, uf)
     RP.check_strnlen_bounded(ctx, uf)
     RP.check_group_size_current(ctx, uf)
+    ctx.rule("W2.fmt-holds-rvalues", "fmt() stores rvalue arguments by value and refers to lvalue arguments only (static_asserts on "
+             "the type fmt() returns)", 2)
+    RO.check_typelevel(ctx, "W2.fmt-holds-rvalues", "format:", 2)
     RBY.check_bytewise(ctx, uf)
     RW.check_widths(ctx, uf, ["frg::"])
     ctx.rule("B6.fmt-width-range", "the {}-spec parser rejects a width before the step that would overflow it (so an "
